@@ -108,6 +108,17 @@ def run(sc):
                 conn.feed(pdu(5, 0, q, deliver_body(b'\x05\x00\x03\x07\x02\x01ab', esm=0x40)))
             elif kind == 'stray-resp':
                 conn.feed(pdu(0x80000004, 0, q, b'id\x00'))
+            elif kind == 'receipt':
+                # delivery receipts as SMSCs write them: well-formed, without dates, dates with seconds, words for numbers,
+                # fields the library does not know - each is a request and must be answered (response or nack) exactly once
+                text = rng.choice((
+                    b'id:77 sub:001 dlvrd:001 submit date:2501010000 done date:2501010001 stat:DELIVRD err:000 text:ok',
+                    b'id:78 sub:001 dlvrd:000 submit date: done date: stat:UNKNOWN err:000 text:',
+                    b'id:79 sub:001 dlvrd:001 submit date:250101000000 done date:250101000159 stat:DELIVRD err:000 text:',
+                    b'id:80 sub:one dlvrd:001 submit date:2501010000 done date:2501010001 stat:UNDELIV err:N/A text:',
+                    b'imsi:2190 id:81 sub:001 dlvrd:001 submit date:2501010000 done date:2513010001 stat:EXPIRED err:034',
+                    b'stat:REJECTD', b'id:', b':', b''))
+                conn.feed(pdu(5, 0, q, deliver_body(text, esm=4)))
             elif kind == 'unbind':
                 # the peer ends the session; the application keeps queueing while the ESME winds the session down
                 conn.feed(pdu(6, 0, q))
@@ -119,7 +130,7 @@ def run(sc):
                 seqs['n'] += 2
         for _ in range(sc['n_in']):
             s.at(round(rng.uniform(0.1, sc['horizon']), 3) + 0.0001,
-                 inbound, rng.choice(('deliver', 'deliver', 'enq', 'unsupported', 'bad', 'seg', 'stray-resp', 'burst', 'unbind')))
+                 inbound, rng.choice(('deliver', 'deliver', 'enq', 'unsupported', 'bad', 'seg', 'stray-resp', 'burst', 'unbind', 'receipt', 'receipt')))
         # back-pressure episodes: the peer stops reading for a while, so drain() really suspends
         for _ in range(sc.get('stalls', 0)):
             t0 = round(rng.uniform(0.5, sc['horizon']), 3) + 0.0004
